@@ -71,7 +71,7 @@ def _binary(name, dx, dy, op):
         inner1 = any(d == 1 for d in sa[1:]) or any(d == 1 for d in sb[1:])
         case = Case(name, expr, dict(x=x, y=y), dict(broadcast=bro, kinds=ka + "," + kb, form="op" if expr[0] == "x" else "func",
                                                      size1_nonleading=inner1), family="B")
-        case.value_oracle = "f32" not in (ka, kb)      # reduced precision: structure (C05) and primal (C06) only
+        case.value_oracle = not ({"f32", "ld"} & {ka, kb})      # non-default precision: structure (C05) and primal (C06) only
         return case
     return s
 
